@@ -2,7 +2,7 @@
    Print Assumptions; the statements are pinned here so they cannot be quietly weakened.
    Model: C11/Model.v (extend / contract of quill/src/action/extend_inner_class_names.rs),
    specification vocabulary (Ext, Broken, ext_rel, contract_rel): C11/Theory.v, C11/Theory2.v. *)
-From FB Require Import C11.Model C11.Theory C11.Theory2 C11.Theory3.
+From FB Require Import C11.Model C11.Theory C11.Theory2 C11.Theory3 C11.Theory4.
 From FB Require Props.C18.
 
 (* Extension: the result has the same namespaces and comment; class by class (same order) the
@@ -227,6 +227,45 @@ Theorem C11_names_valid_definition : forall cs ns,
   forall c b, In c cs -> nth_name (c_names c) ns = Some b -> FB.C18.Theory.ClassNameG b.
 Proof. exact names_valid_definition. Qed.
 Print Assumptions C11_names_valid_definition.
+
+(* ---------------------------------------------------------------------------------------------
+   Round 5 *)
+
+(* The extension specification is COMPLETE: on a well-formed set and a target namespace at a non-first
+   index, whenever some M' satisfies the specification of C11_extend_spec the extension succeeds and
+   returns exactly that M'.  With C11_extend_spec: extend M name = Ok M' <-> ext_rel M ns M' - the rewrite
+   is characterised as a function, not only in its safety half. *)
+Theorem C11_extend_complete : forall M name ns M',
+  wf M = true -> ns_index (ms_ns M) name = Some ns -> ns <> O ->
+  ext_rel M ns M' -> extend M name = Ok M'.
+Proof. exact extend_complete. Qed.
+Print Assumptions C11_extend_complete.
+
+Theorem C11_extend_iff : forall M name ns M',
+  wf M = true -> ns_index (ms_ns M) name = Some ns -> ns <> O ->
+  (extend M name = Ok M' <-> ext_rel M ns M').
+Proof. exact extend_iff. Qed.
+Print Assumptions C11_extend_iff.
+
+(* ext_rel spelled out: same namespaces and comment; class by class (same order) the same comment,
+   fields and methods; the names row has the same length, every cell except [ns] is unchanged - ANY
+   other namespace, before or after the chosen one -, and the cell [ns], when present, is the extended
+   name computed from the names the OUTER classes have in that same namespace [ns] *)
+Theorem C11_ext_rel_definition : forall M ns M',
+  ext_rel M ns M' <->
+  ms_ns M' = ms_ns M /\ ms_doc M' = ms_doc M /\
+  Forall2 (fun c c' =>
+    (length (c_names c') = length (c_names c)
+     /\ (forall j, j <> ns -> nth_name (c_names c') j = nth_name (c_names c) j)
+     /\ match nth_name (c_names c) ns with
+        | None => nth_name (c_names c') ns = None
+        | Some b => exists src r, first_name (c_names c) = Some src /\ Ext (ms_classes M) ns src b r
+                                  /\ nth_name (c_names c') ns = Some r
+        end)
+    /\ c_doc c' = c_doc c /\ c_fields c' = c_fields c /\ c_methods c' = c_methods c)
+    (ms_classes M) (ms_classes M').
+Proof. exact ext_rel_definition. Qed.
+Print Assumptions C11_ext_rel_definition.
 
 (* two branches with pairwise equal target names are extended per branch (along the source names);
    nested target names under flat source names are contracted; a second extension differs from the
